@@ -270,7 +270,7 @@ func (g *c17Shadow) call(data []byte, pos int, N int, sigma, bound float64) (slo
 					}
 				}
 				normInt.Mul(normInt, big.NewInt(2*int64(sign)-1))
-				if normInt.Cmp(boundInt) < 1 {
+				if normInt.CmpAbs(boundInt) < 1 {
 					break
 				}
 			}
